@@ -87,7 +87,7 @@ pub fn random_case(r: &mut Rng, max_events: usize) -> Case {
     ops,
     cold,
     acts,
-    flavor: if r.chance(1, 2) { Flavor::Local } else { Flavor::Threads },
+    flavor: [Flavor::Local, Flavor::Threads, Flavor::Local, Flavor::Threads, Flavor::LocalPool][r.below(5)],
     policy: if r.chance(1, 2) { Policy::Fifo } else { Policy::Any },
     late: r.chance(1, 2),
     seed: r.next(),
@@ -104,6 +104,15 @@ pub struct Obs {
 }
 
 pub fn observe(c: &Case) -> Result<Obs, String> {
+  // the real LocalPool runs its tasks in its own (FIFO) order
+  let mut c2;
+  let c = if c.flavor == Flavor::LocalPool && c.policy != Policy::Fifo {
+    c2 = c.clone();
+    c2.policy = Policy::Fifo;
+    &c2
+  } else {
+    c
+  };
   let src = match &c.cold {
     Some(s) => Src::CreateSync(s.clone()),
     None => Src::Hot(0),
@@ -137,6 +146,9 @@ pub fn observe(c: &Case) -> Result<Obs, String> {
 }
 
 fn exec_class(c: &Case) -> &'static str {
+  if c.flavor == Flavor::LocalPool {
+    return "fifo";
+  }
   match c.policy {
     Policy::Fifo => "fifo",
     Policy::Any => "any-order",
@@ -210,6 +222,9 @@ pub fn run(cfg: &Cfg, rep: &mut Report) {
     rep.evaluations += 1;
     let o = observe(&c);
     let fl = if c.flavor == Flavor::Threads { "_threads" } else { "" };
+    if c.flavor == Flavor::LocalPool {
+      rep.count("runs_on_the_real_LocalPool", 1);
+    }
     for op in &c.ops {
       if op.uses_scheduler() {
         rep.set("operators_covered", &format!("{}{}", op.name(), if matches!(op, Op::Delay(_) | Op::DelayAt(_) | Op::ObserveOn) { fl } else { "" }));
